@@ -271,6 +271,11 @@ func c19Sel(e ast.Expr, root string) (string, bool) {
 
 // c19LeafStmt recognises `if value, ok := toX(m["k"]); ok { settings.F = rhs }`.
 func c19LeafStmt(fset *token.FileSet, st ast.Stmt, mapVar, group string) map[string]any {
+	return c19LeafStmtAt(fset, st, mapVar, group, "settings", "")
+}
+
+// c19LeafStmtAt: the same inside a helper whose parameter `root` stands for settings.<prefix>.
+func c19LeafStmtAt(fset *token.FileSet, st ast.Stmt, mapVar, group, root, prefix string) map[string]any {
 	unknown := map[string]any{"unknown": c19Src(fset, st)}
 	is, ok := st.(*ast.IfStmt)
 	if !ok || is.Else != nil || is.Init == nil {
@@ -305,15 +310,118 @@ func c19LeafStmt(fset *token.FileSet, st ast.Stmt, mapVar, group string) map[str
 	if !ok || asg.Tok != token.ASSIGN || len(asg.Lhs) != 1 || len(asg.Rhs) != 1 {
 		return unknown
 	}
-	field, ok := c19Sel(asg.Lhs[0], "settings")
+	field, ok := c19Sel(asg.Lhs[0], root)
 	if !ok {
 		return unknown
 	}
+	field = c19Join(prefix, field)
 	rhs := c19Src(fset, asg.Rhs[0])
 	if valName != "value" {
 		rhs = "(" + valName + ") " + rhs
 	}
 	return map[string]any{"g": group, "k": key, "c": fn.Name, "f": field, "x": rhs}
+}
+
+func c19Join(prefix, field string) string {
+	switch {
+	case prefix == "":
+		return field
+	case field == "":
+		return prefix
+	}
+	return prefix + "." + field
+}
+
+func c19FuncDecl(file *ast.File, name string) *ast.FuncDecl {
+	for _, d := range file.Decls {
+		if fd, ok := d.(*ast.FuncDecl); ok && fd.Recv == nil && fd.Name.Name == name && fd.Body != nil {
+			return fd
+		}
+	}
+	return nil
+}
+
+// c19WalkApply lists the leaf statements of applySettingsMap in execution order.  The body may
+// delegate a section to a helper of the same file — `settings.X = f(settings.X, raw)` or
+// `settings = f(settings, raw)`, f(p T, raw map[string]interface{}) T ending in `return p` —
+// whose statements are read in place, p standing for settings.X (a harmless split of the
+// function must not look like a change of the key table).
+func c19WalkApply(fset *token.FileSet, file *ast.File, fd *ast.FuncDecl, prefix string, depth int) []any {
+	var entries []any
+	params := []string{}
+	if fd.Type.Params != nil {
+		for _, f := range fd.Type.Params.List {
+			for _, n := range f.Names {
+				params = append(params, n.Name)
+			}
+		}
+	}
+	if len(params) != 2 || depth > 4 {
+		return []any{map[string]any{"unknown": "func " + fd.Name.Name + ": unexpected signature"}}
+	}
+	root, rawName := params[0], params[1]
+	for _, st := range fd.Body.List {
+		if rs, ok := st.(*ast.ReturnStmt); ok {
+			if len(rs.Results) != 1 || c19Src(fset, rs.Results[0]) != root {
+				entries = append(entries, map[string]any{"unknown": c19Src(fset, st)})
+			}
+			continue
+		}
+		// delegation to a section helper?
+		if as, ok := st.(*ast.AssignStmt); ok && as.Tok == token.ASSIGN && len(as.Lhs) == 1 && len(as.Rhs) == 1 {
+			if call, ok := as.Rhs[0].(*ast.CallExpr); ok && len(call.Args) == 2 {
+				if fn, ok := call.Fun.(*ast.Ident); ok {
+					lhs, okl := c19Sel(as.Lhs[0], root)
+					arg, oka := c19Sel(call.Args[0], root)
+					callee := c19FuncDecl(file, fn.Name)
+					if okl && oka && lhs == arg && c19Src(fset, call.Args[1]) == rawName && callee != nil {
+						entries = append(entries, c19WalkApply(fset, file, callee, c19Join(prefix, lhs), depth+1)...)
+						continue
+					}
+				}
+			}
+		}
+		// group block?
+		if is, ok := st.(*ast.IfStmt); ok && is.Init != nil {
+			if as, ok := is.Init.(*ast.AssignStmt); ok && len(as.Rhs) == 1 {
+				if ta, ok := as.Rhs[0].(*ast.TypeAssertExpr); ok {
+					ix, ok1 := ta.X.(*ast.IndexExpr)
+					okShape := ok1 && c19Src(fset, ix.X) == rawName && is.Else == nil &&
+						len(as.Lhs) == 2 && c19Src(fset, is.Cond) == c19Src(fset, as.Lhs[1]) &&
+						c19Src(fset, ta.Type) == "map[string]interface{}"
+					g, ok2 := "", false
+					if ok1 {
+						g, ok2 = c19Lit(ix.Index)
+					}
+					if !okShape || !ok2 {
+						entries = append(entries, map[string]any{"unknown": c19Src(fset, st)})
+						continue
+					}
+					mv := c19Src(fset, as.Lhs[0])
+					for _, inner := range is.Body.List {
+						entries = append(entries, c19LeafStmtAt(fset, inner, mv, g, root, prefix))
+					}
+					continue
+				}
+			}
+		}
+		entries = append(entries, c19LeafStmtAt(fset, st, rawName, "", root, prefix))
+	}
+	return entries
+}
+
+// c19SortEntries: statements that write different fields commute, so the table is compared
+// field by field: a stable sort by field keeps the order of the statements that write the same
+// field (the dotted key after the nested one) and forgets the rest.
+func c19SortEntries(entries []any) {
+	key := func(e any) string {
+		m, _ := e.(map[string]any)
+		if f, ok := m["f"].(string); ok {
+			return f
+		}
+		return "~" // unknown statements last, in source order
+	}
+	sort.SliceStable(entries, func(i, j int) bool { return key(entries[i]) < key(entries[j]) })
 }
 
 func c19Keys() map[string]any {
@@ -361,36 +469,7 @@ func c19Keys() map[string]any {
 		}
 		switch fd.Name.Name {
 		case "applySettingsMap":
-			for _, st := range fd.Body.List {
-				if _, ok := st.(*ast.ReturnStmt); ok {
-					continue
-				}
-				// group block?
-				if is, ok := st.(*ast.IfStmt); ok && is.Init != nil {
-					if as, ok := is.Init.(*ast.AssignStmt); ok && len(as.Rhs) == 1 {
-						if ta, ok := as.Rhs[0].(*ast.TypeAssertExpr); ok {
-							ix, ok1 := ta.X.(*ast.IndexExpr)
-							okShape := ok1 && c19Src(fset, ix.X) == "raw" && is.Else == nil &&
-								len(as.Lhs) == 2 && c19Src(fset, is.Cond) == c19Src(fset, as.Lhs[1]) &&
-								c19Src(fset, ta.Type) == "map[string]interface{}"
-							g, ok2 := "", false
-							if ok1 {
-								g, ok2 = c19Lit(ix.Index)
-							}
-							if !okShape || !ok2 {
-								entries = append(entries, map[string]any{"unknown": c19Src(fset, st)})
-								continue
-							}
-							mv := c19Src(fset, as.Lhs[0])
-							for _, inner := range is.Body.List {
-								entries = append(entries, c19LeafStmt(fset, inner, mv, g))
-							}
-							continue
-						}
-					}
-				}
-				entries = append(entries, c19LeafStmt(fset, st, "raw", ""))
-			}
+			entries = append(entries, c19WalkApply(fset, file, fd, "", 0)...)
 		case "normalizeServerSettings":
 			for _, st := range fd.Body.List {
 				switch x := st.(type) {
@@ -449,6 +528,7 @@ func c19Keys() map[string]any {
 			})
 		}
 	}
+	c19SortEntries(entries)
 	return map[string]any{"impl": map[string]any{
 		"entries":  entries,
 		"norm":     norm,
